@@ -112,6 +112,17 @@ def run(bdir, tier, known_ids, deadline):
                     body = (lead * ((n - 9) // len(lead)) + b'a' * ((n - 9) % len(lead)) + b'@test.com')
                     files.append(body + t + b'ok@test.com' + t)
                     files.append(body + t + b'#c' + t + b'bad..x@test.com')
+    # a 2-, 3- or 4-byte character whose lead byte sits 0..w+1 bytes before each multiple of a power of two, on lines longer than that
+    # (a tool that reads, sanitizes or prints in fixed-size pieces cuts a character there); the line must still be echoed byte for byte
+    for B in (256, 512, 1024, 2048, 4096, 8192):
+        for ch in ('ж'.encode(), '中'.encode(), '😀'.encode()):
+            for d in range(0, len(ch) + 2):
+                one_ = b'a' * (B - d) + ch + b'a' * 31 + b'@test.com'
+                buf = bytearray(b'a' * (3 * B + 31))
+                for kk in (1, 2, 3): buf[kk * B - d:kk * B - d + len(ch)] = ch
+                many = bytes(buf) + b'@test.com'
+                for body in (one_, many):
+                    files.append(body + b'\n' + b'ok@test.com\n')
     # UTF-8 strictness through the tool (bin/utf8_decode.c interposes the library's decoder when linked shared): every 2-byte
     # sequence with a non-ASCII lead, boundary 3- and 4-byte sequences, as bare and quoted local parts - thousands of lines per file
     def utf8_file(seqs, fmt):
